@@ -101,7 +101,7 @@ class C07:
     LEVEL = "exploration"
     HANG_IS_VIOLATION = False
     TIERS = {
-        "quick": {"runs": 64, "budget_s": 170, "chunk": 1, "run_timeout_s": 300},
+        "quick": {"runs": 88, "budget_s": 170, "chunk": 1, "run_timeout_s": 300},
         "thorough": {"runs": 1800, "budget_s": 1700, "chunk": 2, "run_timeout_s": 300},
     }
     EVAL_COUNTER = "evaluations"
